@@ -929,6 +929,20 @@ func closureIteratesPrefix(c *Ctx, f *ssa.Function, sec string) bool {
 func closureIteratesPrefixD(c *Ctx, f *ssa.Function, sec string, depth int) bool {
 	p := f.Parent()
 	if p == nil {
+		if makers := boundValueMakers(c, f); len(makers) > 0 {
+			for _, mk := range makers {
+				ok := false
+				for _, e := range prefixStores(c, mk) {
+					if e.Op == "global" && e.Name == sec {
+						ok = true
+					}
+				}
+				if !ok {
+					return false
+				}
+			}
+			return true
+		}
 		return viaCallers(c, f, depth, func(g *ssa.Function) bool { return closureIteratesPrefixD(c, g, sec, depth+1) })
 	}
 	for _, e := range prefixStores(c, p) {
@@ -946,6 +960,23 @@ func closureIteratesShape(c *Ctx, f *ssa.Function, want []Seg) bool {
 func closureIteratesShapeD(c *Ctx, f *ssa.Function, want []Seg, depth int) bool {
 	p := f.Parent()
 	if p == nil {
+		// a method handed over as a method value (`lister.resultFromKey`): the functions that take that value stand
+		// where the parent of a closure literal stands
+		if makers := boundValueMakers(c, f); len(makers) > 0 {
+			for _, mk := range makers {
+				ok := false
+				for _, e := range prefixStores(c, mk) {
+					s, err := keyShape(c, c.W.Expand(e, 6), 0)
+					if err == nil && kindsEqual(s, want) {
+						ok = true
+					}
+				}
+				if !ok {
+					return false
+				}
+			}
+			return true
+		}
 		return viaCallers(c, f, depth, func(g *ssa.Function) bool { return closureIteratesShapeD(c, g, want, depth+1) })
 	}
 	for _, e := range prefixStores(c, p) {
@@ -1014,5 +1045,28 @@ func streamKeyBuilders(c *Ctx) map[string][]builderInfo {
 			out[sec] = append(out[sec], builderInfo{f, shape})
 		}
 	}
+	return out
+}
+
+// boundValueMakers: the functions in which method f is turned into a function value (obj.f without a call).
+func boundValueMakers(c *Ctx, f *ssa.Function) []*ssa.Function {
+	var out []*ssa.Function
+	seen := map[*ssa.Function]bool{}
+	for _, g := range c.W.Funcs {
+		for _, b := range g.Blocks {
+			for _, in := range b.Instrs {
+				mc, ok := in.(*ssa.MakeClosure)
+				if !ok {
+					continue
+				}
+				wfn, ok := mc.Fn.(*ssa.Function)
+				if ok && ir.BoundTarget(wfn) == f && !seen[g] {
+					seen[g] = true
+					out = append(out, g)
+				}
+			}
+		}
+	}
+	sortFuncs(out)
 	return out
 }
